@@ -94,7 +94,7 @@ def run_translator():
 def coq_make(targets=None, timeout=3000):
     if not os.path.exists(os.path.join(COQ, "Makefile")):
         sh(["./mkproject.sh"], cwd=COQ, check=True)
-    cmd = ["make", "-j16"] + (targets or [])
+    cmd = ["make", "-j16"] + (["-k"] if targets is None else []) + (targets or [])
     rc, out, dt = sh(cmd, cwd=COQ, timeout=timeout)
     return rc == 0, out
 
@@ -435,9 +435,15 @@ def proof_step(res, need_translator=True):
         bad = coq_hygiene()
         if bad:
             raise Infra("forbidden constructs in the Coq development:\n" + "\n".join(bad))
-        ok, log = coq_make()
+        ok, log = coq_make()     # make -k: everything that still builds is built
         if not ok:
-            res.tie_broken("coq-build", "the Coq development no longer builds against the regenerated tables:\n" + log[-2500:])
+            # a file that no longer compiles concerns this property only if props/<pid>.v depends on it
+            ok, log = coq_make(targets=["props/%s.vo" % res.pid])
+            if not ok:
+                res.tie_broken("coq-build", "the Coq development under props/%s.v no longer builds against the "
+                               "regenerated tables:\n%s" % (res.pid, log[-2500:]))
+            else:
+                res.notes.append("a Coq file that props/%s.v does not depend on no longer builds" % res.pid)
         pr = coq_props(res.pid)
         res.proof = pr
         if not pr["ok"]:
